@@ -20,7 +20,7 @@ def one(args):
         mod, ctx = analyse(prop, "/repo", "quick", sources=src)
     except Exception as ex:
         return path, prop, [("CRASH", type(ex).__name__, str(ex)[:200], "")]
-    return path, prop, [(r.status, r.rule, r.construct[:140], r.msg[:200]) for r in added(prop, ctx.results) if r.status in (VIOLATION, UNKNOWN)]
+    return path, prop, [(r.status, r.rule, r.construct[:140], r.msg[:200]) for r in added(prop, ctx.results, path) if r.status in (VIOLATION, UNKNOWN)]
 
 
 if __name__ == "__main__":
